@@ -707,6 +707,22 @@ HAVE_DRIVER = [False]
 
 # ------------------------------------------------------------------------------- run / replay
 
+def stage_genkick(ctx, dis, count):
+    """(family rfgen) the generated _calcKick / constructors of Gen_RFDrift against RFKickMap of the working tree: static
+    construction and the modulated call `_calcKick(phase, ampl)` DynamicRFKickMap::apply makes (lib/rf_cases.py)"""
+    import rf_cases as rfc
+    offs = rfc.gen_offs_cases(ctx, count, prefix="k19")
+    impl, model = rfc.run_offs(ctx, offs)
+    for s in offs:
+        d = rfc.compare_offs(s, impl[s.cid], model[s.cid])
+        rfc.oracle_offs(ctx, s, impl[s.cid])
+        if d:
+            dis.append(dict(case=dict(kind="rfoffs", setup=s.describe(), header=s.header(), calc=s.calc), detail=d[:3],
+                            sig=dict(kind="rf", stage="correspondence", clause="offsets")))
+        ctx.case_done(("genkick", s.cid), True)
+        ctx.count("genkick:" + ("calcKick" if s.calc else "ctor"))
+
+
 def run(ctx):
     ctx.rule = ("dynstat: static and dynamic map built by main()'s constructor calls from the same random arguments (both RF models, n 8..24, "
                 "nb 1..2, it 1..4), zero amplitudes, 1..3 applies: members, offsets at every step and output grids bit for bit; members against "
@@ -719,7 +735,10 @@ def run(ctx):
                 "SIGINT by the VERIF_POINT hook at chosen points: rows = rfm->apply() calls of the run's own trace = first rows of the every-step "
                 "reference; extracted driver model (generated main_prog + set-up skeleton, numbered records) flushes records 0..m-1. "
                 "Non-trivial: finite non-zero offsets on non-zero data / schedules with >= 2 applies and a flush between / A != 0.")
-    coq = vp_coq.full_check("C19", ctx, fams=("dynrf", "driver"))
+    ctx.rule += (" genkick (family rfgen): RFKickMap built by either constructor, half of the cases followed by _calcKick(phase, ampl) as "
+                 "DynamicRFKickMap::apply calls it: every entry of _offset (all nb blocks), the member values and the table-built-from-the-final-"
+                 "offsets flag against the model GENERATED from RFKickMap.cpp (Gen_RFDrift), and against the hand-written model.")
+    coq = vp_coq.full_check("C19", ctx, fams=("dynrf", "driver", "rf"))
     dis = []
     cm = None
     try:
@@ -738,7 +757,16 @@ def run(ctx):
     stage_program_steps(ctx, dis, 18 if q else 120)
     HAVE_DRIVER[0] = bool(os.path.exists(vp_coq.model_path("driver")) and coq["extract_ok"] and coq["make_ok"])
     stage_program_interrupt(ctx, dis, 7 if q else 28, 9 if q else 16)
+    stage_genkick(ctx, dis, 40 if q else 400)
     ctx.extra["correspondence_disagreements"] = len(dis)
+    # downgrade rule of DESIGN 2.2 for the offset-field translator (family rfgen): see lib/props/C03.py
+    failed = [g for g, st in coq["gen"].items() if st.startswith("failed")]
+    if failed == ["Gen_RFDrift"] and coq["make_ok"] and coq["props"]["ok"] and not coq["forbidden"] and coq["extract_ok"] \
+            and not dis and not ctx.violations and ctx.evaluations > 0:
+        ctx.extra["translators"]["Gen_RFDrift"] = "downgraded-to-correspondence (" + coq["gen"]["Gen_RFDrift"][:200] + ")"
+        ctx.notes.append("Gen_RFDrift: translator failed; the last-good generated _calcKick / constructors and the hand-written models agree with the "
+                         "implementation on every case of this run and every oracle holds: downgraded to tie 2")
+        coq = dict(coq, ok=True)
     ctx.assumptions += ["exact-arithmetic model (DESIGN 3); tan/sin/sqrt/asin are abstract in the theorems, libm values are supplied to the extracted model",
                         "overload resolution modelled by arity; agreement with clang's resolution is part of the checked obligation",
                         "front() of an empty queue (undefined behaviour) is never executed: schedules keep applies <= steps, as main()'s loop bound does",
